@@ -29,6 +29,13 @@ def simp(v):
 
 
 def bv(v, bits):
+    if isinstance(v, z3.BitVecRef):
+        sz = v.size()
+        if sz == bits:
+            return v
+        if sz < bits:
+            return z3.ZeroExt(bits - sz, v)
+        return z3.Extract(bits - 1, 0, v)
     if is_sym(v):
         if z3.is_bool(v):
             return z3.If(v, z3.BitVecVal(1, bits), z3.BitVecVal(0, bits))
